@@ -167,6 +167,9 @@ pub enum Op {
     StepEvery { ep: usize, period_us: u64, until_us: u64 },
     Flush { ep: usize },
     Send { ep: usize, to: Option<usize>, ch: u8, mode: u8, len: u32, tag: u32 },
+    /// `count` sends in one go: tags tag..tag+count, channel (tag+i) % 4, modes cycling through
+    /// Unreliable / Reliable / Persistent, all `len` bytes (compact form for very long streams).
+    SendBurst { ep: usize, to: Option<usize>, len: u32, tag: u32, count: u32 },
     Disconnect { ep: usize, to: Option<usize> },
     DisconnectNow { ep: usize, to: Option<usize> },
     ServerDrop { ep: usize, to: usize },
@@ -191,7 +194,7 @@ impl Op {
     pub fn ep(&self) -> Option<usize> {
         match self {
             Op::Create { ep } | Op::Destroy { ep } | Op::Step { ep } | Op::Flush { ep } | Op::StepEvery { ep, .. }
-            | Op::Send { ep, .. } | Op::Disconnect { ep, .. } | Op::DisconnectNow { ep, .. }
+            | Op::Send { ep, .. } | Op::SendBurst { ep, .. } | Op::Disconnect { ep, .. } | Op::DisconnectNow { ep, .. }
             | Op::ServerDrop { ep, .. } | Op::ClockJump { ep, .. } | Op::SockErr { ep, .. }
             | Op::SockCap { ep, .. } | Op::RateSent { ep } | Op::RateStep { ep, .. } => Some(*ep),
             Op::Inject { to, .. } => Some(*to),
@@ -207,6 +210,7 @@ impl Op {
             Op::StepEvery { .. } => "step_every",
             Op::Flush { .. } => "flush",
             Op::Send { .. } => "send",
+            Op::SendBurst { .. } => "send_burst",
             Op::Disconnect { .. } => "disconnect",
             Op::DisconnectNow { .. } => "disconnect_now",
             Op::ServerDrop { .. } => "drop",
@@ -465,6 +469,7 @@ pub fn op_to_json(op: &Op) -> Value {
         Op::Send { ep, to, ch, mode, len, tag } => {
             json!({"op": "send", "ep": ep, "to": to, "ch": ch, "mode": mode_name(*mode), "len": len, "tag": tag})
         }
+        Op::SendBurst { ep, to, len, tag, count } => json!({"op": "send_burst", "ep": ep, "to": to, "len": len, "tag": tag, "count": count}),
         Op::Disconnect { ep, to } => json!({"op": "disconnect", "ep": ep, "to": to}),
         Op::DisconnectNow { ep, to } => json!({"op": "disconnect_now", "ep": ep, "to": to}),
         Op::ServerDrop { ep, to } => json!({"op": "drop", "ep": ep, "to": to}),
@@ -515,6 +520,7 @@ fn op_from_json(v: &Value) -> Result<Op, String> {
             len: get_u64(v, "len")? as u32,
             tag: get_u64(v, "tag")? as u32,
         },
+        "send_burst" => Op::SendBurst { ep: ep()?, to: opt_ep(v, "to"), len: get_u64(v, "len")? as u32, tag: get_u64(v, "tag")? as u32, count: get_u64(v, "count")? as u32 },
         "disconnect" => Op::Disconnect { ep: ep()?, to: opt_ep(v, "to") },
         "disconnect_now" => Op::DisconnectNow { ep: ep()?, to: opt_ep(v, "to") },
         "drop" => Op::ServerDrop { ep: ep()?, to: get_u64(v, "to")? as usize },
